@@ -81,6 +81,7 @@ Definition do_request_rd (clean : list str -> list str) (parse : str -> scheme *
           match script2 with
           | ATok id :: script3 => finish [(s, ATok id)] (SIssued h id) script3
           | AShare id :: script3 => finish [] (SIssued h id) script3
+          | AShareFail :: _ => (evs0, None, RErr EShared)
           | AFail :: _ => (evs0 ++ [(s, AFail)], None, RErr EFetch)
           | AErr :: _ => (evs0 ++ [(s, AErr)], None, RErr ETransport)
           | _ => (evs0, None, RBad)
